@@ -636,3 +636,173 @@ theorem runState_good (M : Machine) (f : Nat) : ChildOK M (runState M f) := by
               simp only; omega
 
 end Cpppo.Engine
+
+namespace Cpppo.Engine
+open Cpppo.Source
+
+/-! ### `octets`: a dfa over one consuming, terminal state without edges -/
+
+/-- the sub-machine state of `octets` / `octets_drop` / `octets_struct` -/
+def State.isByte (s : State) : Prop :=
+  (s.kind = .input ∨ s.kind = .drop) ∧ s.term = true ∧ s.limit = .none ∧ s.edges = []
+
+/-- waiting for a symbol never ends in stasis when every no-target crumb the delegate has seen is
+also in the state's own `seen` set (the state fails with "no progress" first) -/
+theorem acceptLoop_no_stasis (s : State) (f : Nat) (seen : List Crumb) (l : List Crumb) (w : World)
+    (out : Option (List Crumb) × World × Bool)
+    (hinv : ∀ c ∈ l, c.1 = none → c ∈ seen)
+    (h : acceptLoop s f seen (some l) w = .ok out) :
+    out.2.2 = false ∧ accepts s out.2.1 = true := by
+  induction f generalizing seen l w with
+  | zero => simp [acceptLoop] at h
+  | succ f ih =>
+    simp only [acceptLoop] at h
+    split at h
+    · rename_i hacc
+      simp only [Except.ok.injEq] at h; subst h
+      exact ⟨rfl, hacc⟩
+    · split at h
+      · simp at h
+      · rename_i hns
+        have hnl : w.crumb none ∉ l := fun hm => hns (hinv _ hm rfl)
+        simp only [emit, hnl, if_false] at h
+        apply ih _ _ _ _ h
+        intro c hc hcn
+        rcases List.mem_cons.mp hc with rfl | hc
+        · exact List.mem_cons_self
+        · exact List.mem_cons_of_mem _ (hinv c hc hcn)
+
+theorem terminal_byte (M : Machine) (w : World) (j : Nat) (hb : (M.st j).isByte) :
+    isTerminal M w j = true := by
+  unfold isTerminal Machine.depth terminal
+  rcases hb.1 with hk | hk <;> simp [hk, hb.2.1]
+
+theorem accepts_byte {s : State} (hb : s.isByte) {w : World} (h : accepts s w = true) :
+    ∃ x r, w.src.rest = x :: r := by
+  unfold accepts at h
+  have : w.peek.isSome = true := by rcases hb.1 with hk | hk <;> simpa [hk] using h
+  unfold World.peek ASrc.peek at this
+  cases hr : w.src.rest with
+  | nil => simp [hr] at this
+  | cons x r => exact ⟨x, r, rfl⟩
+
+/-- one run of the byte state started by a delegate at the beginning of a cycle: it takes exactly
+one symbol, does not transit, and is not closed -/
+theorem run_byte (M : Machine) (f j : Nat) (e : Option Int) (w : World) (t : Option Nat) (r : RunOut)
+    (hb : (M.st j).isByte) (ht : t ≠ none)
+    (h : runState M f j (some [w.crumb t]) e w = .ok r) :
+    r.closed = false ∧ r.target = none ∧ r.w.sent = w.sent + 1 := by
+  cases f with
+  | zero => simp [runState] at h
+  | succ f =>
+    simp only [runState] at h
+    split at h
+    · simp at h
+    · rename_i ps1 w1 hacc
+      have := acceptLoop_no_stasis _ _ _ _ _ _ (by
+        intro c hc hcn
+        simp only [List.mem_singleton] at hc
+        subst hc
+        exact absurd hcn ht) hacc
+      simp at this
+    · rename_i ps1 w1 hacc
+      have hq := (acceptLoop_spec _ _ _ _ _ _ hacc).1
+      have hns := acceptLoop_no_stasis _ _ _ _ _ _ (by
+        intro c hc hcn
+        simp only [List.mem_singleton] at hc
+        subst hc
+        exact absurd hcn ht) hacc
+      obtain ⟨x, rest, hrest⟩ := accepts_byte hb hns.2
+      simp only at hrest hq
+      have hproc : (process (M.st j) w1).sent = w.sent + 1 := by
+        have : process (M.st j) w1 = w1.advance := by
+          unfold process; rcases hb.1 with hk | hk <;> simp [hk]
+        rw [this, ← hq.sent]
+        simp [World.advance, ASrc.next, hrest, World.sent]
+      simp only [hb.2.2.1, resolve] at h
+      have hdel : ∀ e' f', delegate M (runState M f) j e' f' (process (M.st j) w1)
+          = .ok (process (M.st j) w1, 0, false) := by
+        intro e' f'
+        unfold delegate
+        rcases hb.1 with hk | hk <;> simp [hk]
+      rw [hdel] at h
+      simp only at h
+      -- the transition loop: no edges, no event
+      have htr : ∀ lim, transLoop M j lim f [] ps1 (process (M.st j) w1)
+          = .error (.fuel, process (M.st j) w1) ∨
+          transLoop M j lim f [] ps1 (process (M.st j) w1) = .ok ⟨ps1, process (M.st j) w1, false, none⟩ := by
+        intro lim
+        cases f with
+        | zero => left; rfl
+        | succ f =>
+          right
+          simp only [transLoop]
+          split
+          · rfl
+          · have : ∀ inp, lookup (M.st j) inp = none := by
+              intro inp; unfold lookup; rw [hb.2.2.2]; cases inp <;> simp [findLabel]
+            rw [this]
+            simp [hb.2.2.2]
+      split at h
+      · simp at h
+      · rename_i tt htt
+        have htt' : tt = ⟨ps1, process (M.st j) w1, false, none⟩ := by
+          rcases htr _ with hh | hh
+          · rw [hh] at htt; simp at htt
+          · rw [hh] at htt; simp only [Except.ok.injEq] at htt; exact htt.symm
+        subst htt'
+        simp only [Bool.false_eq_true, if_false] at h
+        split at h
+        · split at h
+          · simp at h
+          · simp only [Except.ok.injEq] at h; subst h
+            exact ⟨rfl, rfl, hproc⟩
+        · simp only [Except.ok.injEq] at h; subst h
+          exact ⟨rfl, rfl, hproc⟩
+
+theorem cycleLoop_bytes (M : Machine) (f0 i j : Nat) (e : Option Int) (final f cycle : Nat)
+    (w : World) (out : World × Nat × Bool) (hb : (M.st j).isByte)
+    (h : cycleLoop M (runState M f0) i j e final f cycle w = .ok out) :
+    out.1.sent = w.sent + ((final - cycle : Nat) : Int) ∧ out.2.2 = false := by
+  induction f generalizing cycle w out with
+  | zero => simp [cycleLoop] at h
+  | succ f ih =>
+    simp only [cycleLoop] at h
+    split at h
+    · rename_i hlt
+      split at h
+      · simp at h
+      · rename_i cur w1 stasis hin
+        -- the inner loop runs the byte state once
+        have hinner : cur = j ∧ stasis = false ∧ w1.sent = w.sent + 1 := by
+          cases f with
+          | zero => simp [innerLoop] at hin
+          | succ f =>
+            simp only [innerLoop] at hin
+            split at hin
+            · simp at hin
+            · rename_i r hr
+              have := run_byte M f0 j e _ (some j) r hb (by simp) hr
+              simp only [this.1, this.2.1, Bool.false_eq_true, if_false, Except.ok.injEq,
+                Prod.mk.injEq] at hin
+              obtain ⟨rfl, rfl, rfl⟩ := hin
+              exact ⟨rfl, rfl, by rw [this.2.2]; rfl⟩
+        obtain ⟨rfl, rfl, hs1⟩ := hinner
+        rw [terminal_byte M w1 cur hb] at h
+        simp only [Bool.not_true, Bool.false_eq_true, if_false] at h
+        split at h
+        · simp at h
+        · rename_i w2 k st hrec
+          simp only [Except.ok.injEq] at h; subst h
+          have := ih _ _ _ hrec
+          simp only at this ⊢
+          refine ⟨?_, this.2⟩
+          rw [this.1, hs1]
+          have : ((final - cycle : Nat) : Int) = ((final - (cycle + 1) : Nat) : Int) + 1 := by omega
+          omega
+    · rename_i hge
+      simp only [Except.ok.injEq] at h; subst h
+      have : final - cycle = 0 := by omega
+      simp [this]
+
+end Cpppo.Engine
